@@ -21,7 +21,7 @@ RULE = ('sandbox trees T/<root>/..., with decoy layer files outside the root (T/
         'Non-trivial = the case attempts to reach outside the root; distinct = distinct (layout, attempt, root spelling).')
 ASSUMPTIONS = ['reads of the Go runtime\'s own files outside T (/proc, /sys, /etc) are not judged', 'error text may differ between "missing" and "escapes the root"']
 
-ATTEMPTS = ['parent-dotdot', 'parent-prefix-sibling', 'parent-root-file-sibling', 'symlink-file', 'symlink-file-child', 'symlink-dir-input', 'symlink-dir-parent', 'parent-absolute',
+ATTEMPTS = ['symlink-abs-inside-then-out', 'symlink-abs-dir-then-out', 'parent-dotdot', 'parent-prefix-sibling', 'parent-root-file-sibling', 'symlink-file', 'symlink-file-child', 'symlink-dir-input', 'symlink-dir-parent', 'parent-absolute',
             'parent-wildcard', 'symlink-chain', 'reenter-path', 'reenter-symlink', 'symlink-absolute', 'control']
 SPELLINGS = ['name', 'dot', 'dotdot', 'absolute', 'via-symlink']
 ROOTS = ['root', 'conf', 'r']
@@ -101,6 +101,14 @@ def build(T, case, decoy_mode):
         os.symlink('sub/l3.' + ext, os.path.join(root, 'l2.' + ext))
         os.symlink('../../outside/decoy.' + ext, os.path.join(root, 'sub', 'l3.' + ext))
         body['$parent'] = 'l1'
+    elif a == 'symlink-abs-inside-then-out':
+        os.symlink(os.path.join(absT, R, 'l2.' + ext), os.path.join(root, 'l1.' + ext))       # absolute, but lexically inside the root
+        os.symlink('../outside/decoy.' + ext, os.path.join(root, 'l2.' + ext))                # the next hop leaves
+        body['$parent'] = 'l1'
+    elif a == 'symlink-abs-dir-then-out':
+        os.symlink(os.path.join(absT, R, 'sub'), os.path.join(root, 'dlink'))
+        os.symlink('../../outside/decoy.' + ext, os.path.join(root, 'sub', 'decoy.' + ext))
+        body['$parent'] = 'dlink/decoy'
     elif a == 'reenter-path':
         body['$parent'] = '../%s/inner' % R          # leaves the root textually and comes back: a file inside the root, allowed
     elif a == 'reenter-symlink':
